@@ -81,6 +81,7 @@ func driveMain(args []string) int {
 	fs := flag.NewFlagSet("drive", flag.ExitOnError)
 	bin := fs.String("bin", "", "worker binary (no race detector)")
 	binRace := fs.String("binrace", "", "worker binary built with -race")
+	binYield := fs.String("binyield", "", "worker binary built with -race against the schedule-perturbed copy of the library")
 	only := fs.String("only", "", "batch/gen:idx — run only that case of that batch")
 	runDir := fs.String("rundir", "", "scratch directory (created by ./check)")
 	noEvidence := fs.Bool("no-evidence", false, "do not rewrite the evidence file")
@@ -107,6 +108,9 @@ func driveMain(args []string) int {
 	}
 
 	batches := p.Plan(tier, seed)
+	if p.Yield && os.Getenv("VERIF_NOYIELD") == "" {
+		batches = append(batches, props.YieldPlan(tier, batches)...)
+	}
 	onlyBatch, onlyCase := "", ""
 	if *only != "" {
 		parts := strings.SplitN(*only, "/", 2)
@@ -150,7 +154,7 @@ func driveMain(args []string) int {
 			defer wg.Done()
 			sem.acquire(w)
 			defer sem.release(w)
-			outs[i] = runBatch(id, tier, seed, b, *bin, *binRace, *runDir, onlyCase)
+			outs[i] = runBatch(id, tier, seed, b, *bin, *binRace, *binYield, *runDir, onlyCase)
 		}(i, b, w)
 	}
 	wg.Wait()
@@ -190,7 +194,7 @@ func (s *wsem) release(w int) {
 
 var caseRe = regexp.MustCompile(`^CASE (\S+)`)
 
-func runBatch(id, tier string, seed int64, b props.Batch, bin, binRace, runDir, onlyCase string) *batchOutcome {
+func runBatch(id, tier string, seed int64, b props.Batch, bin, binRace, binYield, runDir, onlyCase string) *batchOutcome {
 	o := &batchOutcome{Batch: b}
 	t0 := time.Now()
 	defer func() { o.WallS = time.Since(t0).Seconds() }()
@@ -205,6 +209,13 @@ func runBatch(id, tier string, seed int64, b props.Batch, bin, binRace, runDir, 
 	exe := bin
 	if b.Race {
 		exe = binRace
+	}
+	if b.Yield {
+		if binYield == "" {
+			o.ExitErr = "no binary built against the perturbed copy of the library (./check builds it)"
+			return o
+		}
+		exe = binYield
 	}
 	bj, _ := json.Marshal(b)
 	var skips []string
@@ -239,6 +250,9 @@ func runBatch(id, tier string, seed int64, b props.Batch, bin, binRace, runDir, 
 		env = append(env, "GOTRACEBACK=all", "VERIF_RUNDIR="+runDir)
 		if gd := b.Args["godebug"]; gd != "" {
 			env = append(env, "GODEBUG="+gd) // (a batch that runs the library the way an older main module would)
+		}
+		if b.Yield {
+			env = append(env, fmt.Sprintf("VERIF_YIELD=%d", uint64(seed)*1000003+uint64(len(b.Name))))
 		}
 		if b.Race {
 			env = append(env, fmt.Sprintf("GORACE=halt_on_error=0 exitcode=0 history_size=3 log_path=%s.race", base))
